@@ -11,7 +11,7 @@ DRIVER = cc.DRIVER
 COQ_FILES = ["FA/Proofs/CaptureProofs.v", "FA/Proofs/CaptureSem.v", "FA/Properties/C04.v"]
 
 LEVEL = ("Coq theorems over the executable model of _rewrite_captured_vars / check_ast (Model/Capture.v, mirroring the code "
-         "with fixes F08, F19, FC1 applied): capture_respects_scope (the ignore stack acts exactly as deletion of the bound "
+         "with fixes F08, F19, FC1, FC3, FC5, FC6 applied): capture_respects_scope (the ignore stack acts exactly as deletion of the bound "
          "names from the snapshot, for every expression tree incl. nested lambdas and comprehension targets; a tree whose "
          "names are all bound is returned unchanged), capture_gate (check_ast accepts exactly the trees whose constants "
          "have a legal kind - list regenerated from g_legal_capture_types - and otherwise raises ValueError; the pipeline "
